@@ -85,6 +85,8 @@ type field struct {
 	Tagged  bool     `json:"tagged"`
 	TagName string   `json:"tagname"`
 	Opts    []string `json:"opts"`
+	// Embedded: an anonymous field (the field name is the type name without * and package)
+	Embedded bool `json:"embedded,omitempty"`
 }
 
 type typ struct {
@@ -96,17 +98,76 @@ type typ struct {
 func randType(r *rand.Rand, name string, skip bool, nfields int) typ {
 	t := typ{Name: name, Skip: skip}
 	perm := r.Perm(len(fieldNames))
+	used := map[string]bool{}
 	for i := 0; i < nfields; i++ {
 		gt := goTypes[r.IntN(len(goTypes))]
 		tc := tagChoices[r.IntN(len(tagChoices))]
-		t.Fields = append(t.Fields, field{Name: fieldNames[perm[i]], Type: gt.typ, Expr: gt.exprs[r.IntN(len(gt.exprs))],
-			Tag: tc.raw, Tagged: tc.tagged, TagName: tc.tagname, Opts: tc.opts})
+		fd := field{Name: fieldNames[perm[i]], Type: gt.typ, Expr: gt.exprs[r.IntN(len(gt.exprs))],
+			Tag: tc.raw, Tagged: tc.tagged, TagName: tc.tagname, Opts: tc.opts}
+		if r.IntN(5) == 0 { // an anonymous field (each embeddable name once per struct)
+			et := embeddable[r.IntN(len(embeddable))]
+			if n := embeddedName(et.typ); !used[n] {
+				used[n] = true
+				fd.Name, fd.Type, fd.Expr, fd.Embedded = n, et.typ, et.exprs[r.IntN(len(et.exprs))], true
+			}
+		}
+		t.Fields = append(t.Fields, fd)
 	}
 	return t
 }
 
 func f(name, typ, expr, tag string, tagged bool, tagname string, opts ...string) field {
-	return field{name, typ, expr, tag, tagged, tagname, opts}
+	return field{Name: name, Type: typ, Expr: expr, Tag: tag, Tagged: tagged, TagName: tagname, Opts: opts}
+}
+
+// embeddable field types: an anonymous field of the extension struct next to gerror.GError
+var embeddable = []goType{
+	{"Status", []string{"Status(3)", "Status(9)"}},
+	{"pair", []string{`pair{1, "x"}`}},
+	{"*pair", []string{`&pair{2, "y"}`}},
+	{"time.Duration", []string{"1500 * time.Millisecond"}},
+}
+
+// embeddedName: the field name Go gives an anonymous field.
+func embeddedName(typ string) string {
+	n := strings.TrimPrefix(typ, "*")
+	if i := strings.LastIndex(n, "."); i >= 0 {
+		n = n[i+1:]
+	}
+	return n
+}
+
+// emb: an embedded extra field with the k-th tag kind (none / print / clone / print+clone /
+// renamed print+clone).
+func emb(gt goType, k int) field {
+	fd := field{Name: embeddedName(gt.typ), Type: gt.typ, Expr: gt.exprs[0], Embedded: true}
+	switch k % 5 {
+	case 1:
+		fd.Tag, fd.Tagged, fd.TagName, fd.Opts = `gerror:"_,print"`, true, "_", []string{"print"}
+	case 2:
+		fd.Tag, fd.Tagged, fd.TagName, fd.Opts = `gerror:"_,clone"`, true, "_", []string{"clone"}
+	case 3:
+		fd.Tag, fd.Tagged, fd.TagName, fd.Opts = `gerror:"_,print,clone"`, true, "_", []string{"print", "clone"}
+	case 4:
+		fd.Tag, fd.Tagged, fd.TagName, fd.Opts = `gerror:"emb,print,clone"`, true, "emb", []string{"print", "clone"}
+	}
+	return fd
+}
+
+// embedStruct: anonymous extra fields of a named basic type, a struct type (by value for even
+// k, by pointer for odd k) and a package-qualified type, tag kinds rotated by k, plus one
+// ordinary named field.
+func embedStruct(k int) []field {
+	st := embeddable[1]
+	if k%2 == 1 {
+		st = embeddable[2]
+	}
+	return []field{
+		emb(embeddable[0], k),
+		f("Code", "int", "42", `gerror:"_,print"`, true, "_", "print"),
+		emb(st, k+1),
+		emb(embeddable[3], k+2),
+	}
 }
 
 // orderStruct: three fields named Aa < Bb < Cc whose kinds (C clone-only, P print-only, B both)
@@ -220,6 +281,14 @@ func fixedTypes() []typ {
 			f("Source", "string", `""`, `gerror:"origin,print,clone"`, true, "origin", "print", "clone"),
 			f("Name", "string", `""`, `gerror:"_,clone"`, true, "_", "clone"),
 			f("Message", "string", `"field-message"`, `gerror:"_,print"`, true, "_", "print")}},
+		// EMBEDDED (anonymous) extra fields with gerror tags, besides the embedded GError: E1-E5 =
+		// a named basic type, a struct type (value / pointer) and a package-qualified type in every
+		// pairing with the five tag kinds
+		{Name: "E1", Fields: embedStruct(0)},
+		{Name: "E2", Skip: true, Fields: embedStruct(1)},
+		{Name: "E3", Fields: embedStruct(2)},
+		{Name: "E4", Fields: embedStruct(3)},
+		{Name: "E5", Skip: true, Fields: embedStruct(4)},
 		{Name: "G3", Fields: []field{ // a print name is text, not a format
 			f("A", "int", "3", `gerror:"pct%d,print,clone"`, true, "pct%d", "print", "clone"),
 			f("B", "string", `"bee"`, `gerror:"50%,print,clone"`, true, "50%", "print", "clone")}},
@@ -236,10 +305,14 @@ func render(ts []typ, skip bool) string {
 		}
 		fmt.Fprintf(&sb, "type %s struct {\n\tgerror.GError\n", t.Name)
 		for _, fd := range t.Fields {
+			decl := fd.Name + " " + fd.Type
+			if fd.Embedded {
+				decl = fd.Type
+			}
 			if fd.Tag != "" {
-				fmt.Fprintf(&sb, "\t%s %s `%s`\n", fd.Name, fd.Type, fd.Tag)
+				fmt.Fprintf(&sb, "\t%s `%s`\n", decl, fd.Tag)
 			} else {
-				fmt.Fprintf(&sb, "\t%s %s\n", fd.Name, fd.Type)
+				fmt.Fprintf(&sb, "\t%s\n", decl)
 			}
 		}
 		sb.WriteString("}\n\n")
@@ -270,7 +343,7 @@ func registry(ts []typ) string {
 				}
 				opts = "[]string{" + strings.Join(q, ", ") + "}"
 			}
-			fmt.Fprintf(&sb, "\t\t\t{Name: %q, Type: %q, Tag: %q, Tagged: %v, TagName: %q, Opts: %s},\n", fd.Name, fd.Type, fd.Tag, fd.Tagged, fd.TagName, opts)
+			fmt.Fprintf(&sb, "\t\t\t{Name: %q, Type: %q, Tag: %q, Tagged: %v, TagName: %q, Opts: %s, Embedded: %v},\n", fd.Name, fd.Type, fd.Tag, fd.Tagged, fd.TagName, opts, fd.Embedded)
 		}
 		sb.WriteString("\t\t},\n")
 		fmt.Fprintf(&sb, "\t\tNew: func(g gerror.GError) gerror.Factory {\n\t\t\treturn gerror.FactoryOf(&%s{\n\t\t\t\tGError: g,\n", t.Name)
